@@ -37,7 +37,7 @@ m = {
         {'name': 'verus', 'path': 'vx/', 'serves_properties': [c['property_id'] for c in checks],
          'kind_free_text': 'deductive verifier (Z3) on function bodies extracted from /repo each run into contracts/*.rs.tmpl'},
         {'name': 'kani', 'path': 'kani/', 'serves_properties': [pid for pid in ids if pid in P.PROPS and P.PROPS[pid].get('kani')],
-         'kind_free_text': 'CBMC harnesses appended to a scratch copy of the crate: complete bit-level / table lemmas the Verus units assume, and counterexample replay'},
+         'kind_free_text': 'CBMC harnesses appended to a scratch copy of the crate: complete bit-level / table lemmas the Verus units assume, counterexample replay, and the second back end for the small bit-level functions (kani/k_bits.rs: the same contracts as loop-free harnesses over the full input domain; decides when Verus cannot discharge such a function on the text as written)'},
     ],
     'checks': checks,
     'not_applicable': na,
